@@ -199,6 +199,16 @@ func runCase(c Case, r *runlog.R) error {
 				return fmt.Errorf("harness: the model's literal reader disagrees with strconv.ParseInt on %q: (%d,%v) vs (%d,%v)", s.name, v1, ok1, v2, err2)
 			}
 		}
+		if runlog.IsOpen("D4") {
+			// known finding D4 open: negative literals are constructed away
+			for _, s := range segs[i] {
+				if v, ok := goInt(s.name); ok && v < 0 && !(numKeys && len(segs[i]) == 1) {
+					r.Excluded("D4")
+					r.Discard()
+					return nil
+				}
+			}
+		}
 		if err := root.insert(segs[i], e.Val); err != nil {
 			r.Discard() // two keys name the same setting or one runs through the other
 			return nil
@@ -287,6 +297,15 @@ func runCase(c Case, r *runlog.R) error {
 			var m map[string]interface{}
 			if err := uc.Safe("Unpack(map)", func() error { return cfg.Unpack(&m, opts...) }); err != nil {
 				return fmt.Errorf("%s: Unpack into a map failed: %v", expl, err)
+			}
+			// a root with both parts: Unpack into a map is only asked to deliver the named part;
+			// whether it also shows the list under decimal keys is not asserted
+			for k := range m {
+				if _, named := wantM[k]; !named && len(root.arr) > 0 && plainDecimal(k) {
+					if i, err := strconv.Atoi(k); err == nil && i < len(root.arr) {
+						delete(m, k)
+					}
+				}
 			}
 			if !reflect.DeepEqual(m, wantM) {
 				return fmt.Errorf("%s: Unpack into a map\n got  %s\n want %s", expl, clip(fmt.Sprintf("%#v", m)), clip(fmt.Sprintf("%#v", wantM)))
